@@ -49,13 +49,18 @@ def monitor_history(oc, hseed, tier):
     docs = [ro_text]
     for k in range(n):
         state = TJ.to_tree(ro.xml)
-        cls, msg = gen_hist.random_message(g, state, 700 + k, cls=rng.choice(CARRY_BIAS) if rng.random() < 0.6 else None)
-        text = TJ.to_text(msg)
-        docs.append(text)
-        try:
-            mo = impl.load(text)
-        except Exception:  # noqa: BLE001
-            continue
+        if merged and rng.random() < 0.15:
+            # the same message object once more into the same running order (a retransmission)
+            text, mo, _, cls = rng.choice(merged)
+            docs.append(text)
+        else:
+            cls, msg = gen_hist.random_message(g, state, 700 + k, cls=rng.choice(CARRY_BIAS) if rng.random() < 0.6 else None)
+            text = TJ.to_text(msg)
+            docs.append(text)
+            try:
+                mo = impl.load(text)
+            except Exception:  # noqa: BLE001
+                continue
         before_msg = str(mo)
         if rng.random() < 0.5:
             inspect_quietly(mo)                # inspecting a message is not editing it
@@ -172,6 +177,9 @@ def targeted(oc):
         'StorySend': B.story_send('A', [B.item('X1'), B.p('text'), B.item('X2')]),
         'EAStoryInsert': B.ea('INSERT', {'storyID': 'A'}, [[X()]]),
         'EAStoryReplace': B.ea('REPLACE', {'storyID': 'A'}, [[X()]]),
+        'EAStoryReplace-new-version-of-itself': B.ea('REPLACE', {'storyID': 'X'}, [[X()]]),
+        'StoryReplace-new-version-of-itself': B.story_replace('X', [X()]),
+        'StorySend-new-version-of-itself': B.story_send('X', [B.item('X1'), B.p('text'), B.item('X2')]),
         'RunningOrderReplace': B.ro_replace([X(), B.story('B', [B.item('I1')])]),
         'ItemInsert': B.item_insert('A', 'I1', [B.item('X1', extra=[E('note', text='n')])]),
         'ItemReplace': B.item_replace('A', 'I1', [B.item('X1', extra=[E('note', text='n')])]),
@@ -180,6 +188,7 @@ def targeted(oc):
         'MetaDataReplace': B.metadata_replace([E('roSlug', text='new'), B.timing_md(duration='5', schema='s1')]),
     }
     sid = lambda c: 'A' if c in ('StorySend', 'ItemInsert', 'ItemReplace', 'EAItemInsert', 'EAItemReplace') else 'X'
+    base_cls = lambda c: c.split('-')[0]
     for cname, carrier in carriers.items():
         s = sid(cname)
         edits = {
@@ -191,7 +200,8 @@ def targeted(oc):
             'ro delete': B.ro_delete(),
         }
         for ename, edit in edits.items():
-            ro_text = TJ.to_text(B.ro_doc([B.story('A', [B.item('I1'), B.item('X1'), B.item('X2')]), B.story('B', [B.item('I1')])],
+            ro_text = TJ.to_text(B.ro_doc([B.story('A', [B.item('I1'), B.item('X1'), B.item('X2')]), B.story('B', [B.item('I1')]),
+                                           B.story('X', [B.item('X1'), B.item('old')])],
                                           extra=[B.timing_md(duration='1', schema='s1')]))
             ctext, etext = TJ.to_text(carrier), TJ.to_text(edit)
             ro, ro2 = impl.load(ro_text), impl.load(ro_text)
